@@ -166,9 +166,13 @@ def _collect(p):
     return {'ok': False, 'error': 'no output from pristine run (rc=%s)' % p.returncode}
 
 
+_OWN_ORACLE_DIRS = []
+
+
 def plan(tier, seed, shards):
     ok, bad = contents()
     work = tempfile.mkdtemp(prefix='gxv-c08-oracle-')
+    _OWN_ORACLE_DIRS.append(work)
     res = pristine(ok + bad, work)
     path = os.path.join(work, 'oracle.json')
     with open(path, 'w') as f:
@@ -189,9 +193,9 @@ def plan(tier, seed, shards):
 
 
 def finalize(merged):
-    import glob
     import shutil
-    for d in glob.glob(os.path.join(tempfile.gettempdir(), 'gxv-c08-oracle-*')):
+    # only this run's own oracle directory: another C08 run may be in progress on the machine
+    for d in _OWN_ORACLE_DIRS:
         shutil.rmtree(d, ignore_errors=True)
     return {}
 
